@@ -267,9 +267,33 @@ example : (tokenize lineA_A_B.gs lineA_A_B.spans).map tokTexts =
 example : (annotatePair ⟨0, 1, 2, 3⟩ lineA_B lineA_A_B).map (fun a => (emphCount 3 a.plus, emphText 3 a.plus)) =
     .ok (1, ['a', ' ']) := by rfl
 
+/-- threshold 0.6, naive threshold 0; deletion tag 1, insertion tag 3 -/
 private def cfg6 : Cfg := ⟨1, 3, 6, 10, 0, 1⟩
+/-- threshold 1.0 -/
+private def cfg10 : Cfg := ⟨1, 3, 10, 10, 0, 1⟩
+/-- threshold 0 -/
+private def cfg0 : Cfg := ⟨1, 3, 0, 1, 0, 1⟩
+private def lineB : Line := ⟨[gB], [(0, 1)]⟩
+private def lineC : Line := ⟨[⟨['c'], 1, false⟩], [(0, 1)]⟩
+private def lineA__B : Line := ⟨[gA, gS, gS, gB], [(0, 1), (3, 4)]⟩
+
+-- a pair and an unpaired minus line (hypotheses of `pairing_monotone`, `unpaired_no_emph`, `paired_is_annotate`)
 example : (inferEdits cfg6 [lineAB, lineAA] [lineAA] [0, 0] [2]).map (·.alignment)
     = .ok [(some 0, some 0), (some 1, none)] := by rfl
+example : (inferEdits cfg6 [lineAB, lineAA] [lineAA] [0, 0] [2]).map (·.minus)
+    = .ok [[⟨0, [gA, gS]⟩, ⟨1, [gB]⟩], [⟨0, [gA, gS, gA]⟩]] := by rfl
+-- a rejected candidate emitted before the pair, then nothing left
+example : (inferEdits cfg6 [lineAB] [lineC, lineAA] [0] [2, 2]).map (·.alignment)
+    = .ok [(none, some 0), (some 0, some 1)] := by rfl
+-- threshold 1: positional pairs whatever the lines (`pairing_distance_one`)
+example : (inferEdits cfg10 [lineAB, lineB] [lineB, lineAA, lineAB] [0, 0] [2, 2, 2]).map (·.alignment)
+    = .ok [(some 0, some 0), (some 1, some 1), (none, some 2)] := by rfl
+-- threshold 0: a whitespace-only difference is paired, a real difference is not (`pairing_distance_zero`)
+example : (inferEdits cfg0 [lineAB] [lineA__B] [0] [2]).map (·.alignment) = .ok [(some 0, some 0)] := by rfl
+example : (inferEdits cfg0 [lineAB] [lineAA] [0] [2]).map (·.alignment) = .ok [(some 0, none), (none, some 0)] := by rfl
+-- identical lines: no emphasis (`identical_no_emph`)
+example : (annotatePair ⟨0, 1, 2, 3⟩ lineAB lineAB).map (fun a => (a.minus.map (·.tag), a.plus.map (·.tag)))
+    = .ok ([0], [2]) := by rfl
 
 /-! ## make_lines_have_homolog -/
 
